@@ -77,10 +77,13 @@ class Instr:
         super().stopPollThread()
 
     def shutdownModule(self):
+        _state.shutdown_seen = True
         _ev('shutdown', self.name)
         super().shutdownModule()
 
     def read_pv(self):
+        if _state.shutdown_seen:
+            _ev('latepoll', self.name)            # a poll thread is still working after a module was shut down
         if self.name not in _state.seen_poll:
             _state.seen_poll.add(self.name)
             _ev('firstpoll', self.name)
@@ -178,15 +181,49 @@ class LoggerStub:
         return False
 
 
-def sched_multievent(s):
-    """the real frappy/lib/multievent.py, executed with the scheduler's threading/time"""
+def sched_multievent(s, metrace):
+    """the real frappy/lib/multievent.py, executed with the scheduler's threading/time.  The lock and the event of
+    the MultiEvent record every EFFECT (not the yield point before it) in `metrace`: (thread, what)"""
     import frappy.lib.multievent as me
+
+    def who():
+        t = s.me()
+        return t.name if t is not None else 'main'
 
     class _Event(vsched.SEvent):
         def __init__(self):
-            vsched.SEvent.__init__(self, s)
+            vsched.SEvent.__init__(self, s, 'ME.event')
 
-    shim = types.SimpleNamespace(Event=_Event, RLock=s.threading.RLock, Lock=s.threading.Lock)
+        def set(self):
+            vsched.SEvent.set(self)
+            metrace.append([who(), 'evset'])
+
+        def clear(self):
+            vsched.SEvent.clear(self)
+            metrace.append([who(), 'evclear'])
+
+    class _Lock(vsched.SLock):
+        def __init__(self):
+            vsched.SLock.__init__(self, s, 'ME.lock', reentrant=True)
+
+        def acquire(self, blocking=True, timeout=-1):
+            ok = vsched.SLock.acquire(self, blocking, timeout)
+            if ok and self.depth == 1:
+                metrace.append([who(), 'lock'])
+            return ok
+
+        def release(self):
+            vsched.SLock.release(self)
+            if self.depth == 0:
+                metrace.append([who(), 'unlock'])
+
+        __enter__ = acquire
+
+        def __exit__(self, *exc):
+            self.release()
+            return False
+
+    shim = types.SimpleNamespace(Event=_Event, RLock=_Lock, Lock=s.threading.Lock)
     mod = types.ModuleType('frappy_lib_multievent_sched')
     with open(me.__file__) as f:
         src = f.read()
@@ -239,30 +276,42 @@ def run_case(case, policy=None, max_steps=200000):
     frappy.io.HasIO.ioDict.clear()        # O02: class-level dictionary shared by every node of the process
     specs = {sp['name']: sp for sp in case['mods'] + case.get('dyn', [])}
     log = []
-    _state.log, _state.specs, _state.seen_poll, _state.stopped = log, specs, set(), set()
+    _state.log, _state.specs, _state.seen_poll, _state.shutdown_seen = log, specs, set(), False
     if policy is None:
         policy = vsched.ReplayThenDefault(case.get('sched') or [])
     s = vsched.Scheduler(policy=policy, max_steps=max_steps)
     _state.sched = s
     out = {'log': log, 'errors': [], 'modules': [], 'edges': [], 'exit': None, 'crash': None, 'threads': [],
-           'waited': None, 'timedout': []}
-    MultiEvent = sched_multievent(s)
+           'waited': None, 'timedout': [], 'metrace': []}
+    MultiEvent = sched_multievent(s, out['metrace'])
+    handles = {}
+
+    def mkthread(func, *args, **kwds):
+        # the poll threads that really exist, by the module that owns them
+        h = s.mkthread(func, *args, **kwds)
+        handles[getattr(getattr(func, '__self__', None), 'name', h.name)] = h
+        return h
 
     class LoggedMultiEvent(MultiEvent):
         def get_trigger(self, timeout=None, name=None):
             tname = (name or self.name or '').replace('module ', '')
+            out['metrace'].append(['main', 'register', tname])
             trig = super().get_trigger(timeout, name)
             _ev('thread', tname)
             out['threads'].append(tname)
 
             def fire():
                 _ev('rounddone', tname)
+                t = s.me()
+                out['metrace'].append([t.name if t is not None else 'main', 'fire', tname])
                 trig()
             return fire
 
         def wait(self, timeout=None):
             t0 = s.now
+            out['metrace'].append(['main', 'wait', bool(self.events)])
             ok = super().wait(timeout)
+            out['metrace'].append(['main', 'waitdone', bool(ok)])
             out['waited'] = round(s.now - t0, 3)
             if not ok:
                 out['timedout'] = sorted(n.replace('module ', '') for n in self.waiting_for())
@@ -295,15 +344,20 @@ def run_case(case, policy=None, max_steps=200000):
                 s.time.sleep(total + 1)
                 _ev('shutdownbegin')
                 sn.shutdown_modules()
+                # which poll threads exist after shutdown_modules returned?  do they still poll?
+                if any(h.is_alive() for h in handles.values()):
+                    s.time.sleep(12)
+                for owner in sn.modules:
+                    if owner in handles and handles[owner].is_alive():
+                        _ev('alive', owner)
         except vsched.SchedAbort:
             raise
         except BaseException as e:  # noqa: a crash of the lifecycle is an observation
             out['crash'] = type(e).__name__
         finally:
-            if out['exit'] is not None or out['crash']:
-                s.stop('process exit')      # daemon poll threads die with the process
+            s.stop('process exit')      # daemon poll threads die with the process
 
-    with s.patched(frappy.modulebase, threading=s.threading, time=s.time, mkthread=s.mkthread), \
+    with s.patched(frappy.modulebase, threading=s.threading, time=s.time, mkthread=mkthread), \
             s.patched(frappy.secnode, time=s.time), \
             s.patched(frappy.server, MultiEvent=LoggedMultiEvent, sys=fake_sys):
         s.spawn('main', main)
@@ -435,6 +489,14 @@ def build_case(rng, n, edges, variant):
         mods.insert(rng.randint(0, len(mods)), pin)
         if rng.random() < 0.2 and len(names) > 1:
             pin['scan'].append(names[0])          # yields a module twice
+        if rng.random() < 0.5:
+            # a declared module uses a module that only the Pinata produces (declared before or after the Pinata)
+            users = [m for m in mods if m['cls'] == 'L' and 'a4' not in [a[0] for a in m['atts']]]
+            if users:
+                u = rng.choice(users)
+                u['atts'].append(['a4', rng.choice(names), True, 0])
+                if rng.random() < 0.5:
+                    u[rng.choice(['te', 'ti'])].append('a4')
     elif variant == 'slow' and mods:
         for m in rng.sample(mods, min(len(mods), rng.choice([1, 1, 2]))):
             m['delay'] = rng.choice([4, 100, 100])
@@ -474,7 +536,7 @@ def observe(case, policy=None):
     obs = {'modules': raw['modules'], 'errors': raw['errors'], 'log': log,
            'ioDict': sorted([k, v] for k, v in frappy.io.HasIO.ioDict.items()),
            'edges': raw['edges'], 'exit': raw['exit'], 'crash': raw['crash'], 'thread_errors': raw['sched']['errors'],
-           'shutdown': shutdown}
+           'shutdown': shutdown, 'metrace': raw['metrace']}
     return obs, raw
 
 
@@ -486,7 +548,8 @@ def requests_for(case, obs):
     cfg = wire_cfg(case)
     return [{'p': 'C15', 'k': 'run', 'cfg': cfg, 'log': obs['log'], 'shutdown': obs['shutdown']},
             {'p': 'C15', 'k': 'judge', 'cfg': cfg, 'modules': obs['modules'], 'errors': obs['errors'],
-             'log': obs['log'], 'ioDict': obs['ioDict']}]
+             'log': obs['log'], 'ioDict': obs['ioDict']},
+            {'p': 'C15', 'k': 'me_follow', 'trace': obs['metrace']}]
 
 
 def model_view(model):
@@ -702,12 +765,33 @@ def run(ctx):
             case['sched'] = raw['choices']
         reqs += requests_for(case, obs)
         metas.append((kind, case, obs))
+    # systematic schedules (at most 2 preemptions) of "main thread registering start triggers" x "poll threads reporting
+    # their first round": the MultiEvent protocol (lock / event.set / event.clear are yield points of the scheduler)
+    scenarios = [
+        {'mods': [mkspec('m0'), mkspec('m1')], 'dyn': [], 'sched': None},
+        {'mods': [mkspec('m0', writes=['w0']), mkspec('m1', poll=False, writes=['w0']), mkspec('m2')], 'dyn': [], 'sched': None},
+    ]
+    t_exp = time.time() + (14 if ctx.tier == 'quick' else 150)
+    for scen in scenarios:
+        def make_run(policy, scen=scen):
+            c = json.loads(json.dumps(scen))
+            obs, raw = observe(c, policy)
+            c['sched'] = raw['choices']
+            return _state.sched, (c, obs)
+        nrun = 0
+        for _prefix, _s, (c, obs) in vsched.explore(make_run, max_preemptions=2, max_runs=ctx.budget(700, 12000)):
+            nrun += 1
+            reqs += requests_for(c, obs)
+            metas.append(('explore', c, obs))
+            if time.time() > t_exp:
+                break
+        res.count('explore.runs', nrun)
     answers = ctx.driver.batch(reqs, timeout=600)
     seen_sigs = set()
     for j, (kind, case, obs) in enumerate(metas):
-        model, judge = answers[2 * j], answers[2 * j + 1]
-        if 'driver_error' in model or 'driver_error' in judge:
-            raise RuntimeError(f'driver error: {model} {judge} {json.dumps(case)}')
+        model, judge, follow = answers[3 * j], answers[3 * j + 1], answers[3 * j + 2]
+        if 'driver_error' in model or 'driver_error' in judge or 'driver_error' in follow:
+            raise RuntimeError(f'driver error: {model} {judge} {follow} {json.dumps(case)}')
         res.evaluations += 1
         res.traces += 1
         specs = case['mods'] + case.get('dyn', [])
@@ -729,6 +813,10 @@ def run(ctx):
                 res.disagreements.append({'case': case, 'model': 'fuel exhausted', 'impl': None})
             else:
                 d = first_diff(model_view(model), impl_view(obs))
+                if d is None and follow['stuck'] is not None:
+                    i = follow['stuck']
+                    d = {'field': 'multievent-trace', 'index': i, 'model': 'label not enabled in the MultiEvent protocol',
+                         'impl': obs['metrace'][max(0, i - 3):i + 2]}
                 if d is not None:
                     res.disagreements.append({'case': case, 'model': d.get('model'), 'impl': d.get('impl'),
                                               'where': {k: v for k, v in d.items() if k not in ('model', 'impl')}})
@@ -759,6 +847,7 @@ def replay(ctx, rp):
     print('errors :', obs['errors'], ' modules:', obs['modules'])
     print('model  :', ' '.join('.'.join(e) for e in canon_log(a[0].get('log', []))), a[0].get('errors'))
     print('judge  :', a[1])
+    print('multievent trace followed by the model:', a[2].get('stuck') is None, a[2])
     clause = (rp.get('detail') or {}).get('clause')
     failed = a[1].get('failed', ['driver_error'])
     if obs['crash'] or obs['thread_errors']:
